@@ -140,6 +140,7 @@ class Occ:
         self.memo = {}
         self.evaluated = []  # (fn, site, state(s), verdict)
         self.slot_events = set()  # (fn, block, 'A'|'M', pre-state, callee)
+        self.capture_counters = {}  # closure short -> {capture index: field name} for captured `&mut <buffer>.size` / `&mut guard.initialized`
 
     # ---- event extraction -----------------------------------------------------------------------
     def counter_field(self, f):
@@ -154,7 +155,14 @@ class Occ:
         if not fields and mir.place_has_deref(pl) and len(pl["proj"]) == 1:
             # a store through a reference that was taken to the counter field itself (a closure capturing `&mut guard.initialized`)
             r = mir.strip_casts(f.deep_simplify(f.local_expr(pl["local"], b, i)))
+            # ... or through a `&mut usize` captured by a closure that is run by foreign code: which capture refers to the
+            # counter field is read off the closure aggregate in the enclosing function (capture_counters)
+            if (isinstance(r, tuple) and len(r) >= 3 and r[0] == "load" and r[1] == ("param", 1) and len(r[2]) == 1
+                    and r[2][0] in self.capture_counters.get(f.short, {})):
+                fields = [self.capture_counters[f.short][r[2][0]]]
             for _ in range(3):
+                if fields:
+                    break
                 if isinstance(r, tuple) and r and r[0] == "ref" and isinstance(r[1], tuple) and r[1][0] == "place" and len(r[1]) == 3 and r[1][2]:
                     fields = [x for x in r[1][2] if isinstance(x, str)]
                     break
